@@ -20,6 +20,8 @@ type dataEnv struct {
 	m  *meta.Module
 	st store.Store
 	b  *node.Browser
+	// srcUnordered: the source of the current edit is a Go map (no entry order)
+	srcUnordered bool
 }
 
 func newEnv(schema, impl string) *dataEnv {
@@ -211,8 +213,25 @@ func sourceNode(kind string, m *meta.Module, ep entryPoint, s *model.Tree) (node
 		}
 		return nodeutil.ReadXMLDoc(strings.NewReader("<data>" + xmlBody(defs, s) + "</data>"))
 	}
+	if strings.HasPrefix(kind, "lib:") {
+		// a library node over Go data holding S at the entry point's path is the source
+		env := newEnv(schemaNameOf(m), kind[4:])
+		if err := env.populate(embedAt(m, ep, s)); err != nil {
+			return nil, err
+		}
+		sel := env.b.Root()
+		if ep.Path != "" {
+			var err error
+			if sel, err = sel.Find(ep.Path); err != nil || sel == nil {
+				return nil, fmt.Errorf("harness: source find %s: %v", ep.Path, err)
+			}
+		}
+		return sel.Node, nil
+	}
 	panic("unknown source kind " + kind)
 }
+
+func schemaNameOf(m *meta.Module) string { return m.Ident() }
 
 func keyCanon(k []val.Value) string {
 	var parts []string
